@@ -6,5 +6,7 @@ cd "$(dirname "$0")"
 /venv/bin/python translate/handlers.py
 /venv/bin/python translate/registry.py
 /venv/bin/python translate/protocol.py
+/venv/bin/python translate/cli.py
+/venv/bin/python translate/sinks.py
 cd lean
 lake build DS driver
